@@ -227,7 +227,50 @@ def gen_rubber(repo=None):
         if _stmt(src) not in dumps:
             raise TranslateError(f'rubberband: statement not found / changed ({what}): {src.splitlines()[0]}')
 
-    need('hull_data = np.vstack((self.x, y)).T', 'points handed to qhull')
+    # points handed to qhull: hull_data = np.vstack((ROW_X, ROW_Y)).T where each row is the data axis itself or an
+    # INCREASING affine image of it:  (v - A) / B  with B recognisably positive, possibly guarded  ... if B > 0 else v
+    hd = [st for st in body if isinstance(st, ast.Assign) and len(st.targets) == 1 and _is_name(st.targets[0], 'hull_data')]
+    if len(hd) != 1:
+        raise TranslateError('rubberband: hull_data assignment not found (or not unique)')
+    val = hd[0].value
+    if not (isinstance(val, ast.Attribute) and val.attr == 'T' and isinstance(val.value, ast.Call)
+            and _dump(val.value.func) == _expr('np.vstack') and len(val.value.args) == 1 and not val.value.keywords
+            and isinstance(val.value.args[0], ast.Tuple) and len(val.value.args[0].elts) == 2):
+        raise TranslateError('rubberband: hull_data is not np.vstack((row_x, row_y)).T')
+    assigned = {}
+    for st in body:
+        if isinstance(st, ast.Assign) and len(st.targets) == 1 and isinstance(st.targets[0], ast.Name):
+            assigned.setdefault(st.targets[0].id, []).append(_dump(st.value))
+
+    def positive(node, var, guard):
+        d = _dump(node)
+        if var == 'self.x' and d == _expr('self.x_domain[1] - self.x_domain[0]'):
+            return True          # x_domain = (x.min(), x.max()) of at least two distinct abscissae
+        if var == 'y' and isinstance(node, ast.Name) and guard == _dump(ast.parse(f'{node.id} > 0', mode='eval').body):
+            # guarded by `name > 0`; the name must be the data range
+            return assigned.get(node.id) == [_expr('y.max() - y_min')] and assigned.get('y_min') == [_expr('y.min()')]
+        return False
+
+    def axis_map(node, var, guard=None):
+        if _dump(node) == _expr(var):
+            return 'id'
+        if isinstance(node, ast.IfExp) and guard is None:
+            a = axis_map(node.body, var, _dump(node.test))
+            b = axis_map(node.orelse, var, 'else')
+            if a == 'scaled' and b == 'id':
+                return 'scaled'
+            raise TranslateError(f'rubberband: unsupported guarded axis map for {var}')
+        if isinstance(node, ast.BinOp) and isinstance(node.op, ast.Div) and isinstance(node.left, ast.BinOp) \
+                and isinstance(node.left.op, ast.Sub) and _dump(node.left.left) == _expr(var) \
+                and positive(node.right, var, guard):
+            sub = node.left.right
+            if _dump(sub) in (_expr('self.x_domain[0]'), _expr('y_min')) or isinstance(sub, ast.Constant):
+                return 'scaled'
+        raise TranslateError(f'rubberband: the {var} row handed to qhull is not {var} or an increasing affine image of it: {_dump(node)[:200]}')
+
+    row_x, row_y = val.value.args[0].elts
+    x_map = axis_map(row_x, 'self.x')
+    y_map = axis_map(row_y, 'y')
     need('total_vertices = []', 'vertex accumulator')
     need('mask = np.zeros(self._shape, dtype=bool)', 'mask')
     need('mask[np.unique(total_vertices)] = True', 'mask from the kept vertices')
@@ -266,8 +309,12 @@ def gen_rubber(repo=None):
             'From Coq Require Import ZArith.\nOpen Scope Z_scope.\n\n'
             '(* max_idx = vertices.argmax() + rb_max_offset *)\n'
             f'Definition rb_max_offset : Z := {zlit(off)}.\n'
-            '(* pinned shapes: hull points = vstack((self.x, y)).T per segment; interpolation = np.interp(self.x, self.x[mask], y[mask]) *)\n'
+            '(* pinned: hull points = vstack((row_x, row_y)).T per segment, each row the data axis or an increasing affine image\n'
+            '   of it ((v - A) / B with B > 0: C14_rubberband_affine_invariant says the lower hull is the same);\n'
+            '   interpolation = np.interp(self.x, self.x[mask], y[mask]) *)\n'
             'Definition rb_points_are_x_y : bool := true.\n'
+            f'Definition rb_x_scaled : bool := {"true" if x_map == "scaled" else "false"}.\n'
+            f'Definition rb_y_scaled : bool := {"true" if y_map == "scaled" else "false"}.\n'
             'Definition rb_interp_over_x_mask : bool := true.\n')
 
 
